@@ -62,6 +62,10 @@ def gen(rng, tier):
         if any(x["t"] == "TrackLetter" for x in pk["inferral"] + pk["initial"]):
             continue
         break
+    if rng.random() < 0.3 and R["world"].get("marks", 1) == 1:
+        # marked words: a rule whose backward map has several preimages (uniform pick among them)
+        R["world"]["marks"] = rng.choice([2, 3])
+        R["pack"]["initial"] = [{"t": "ForgetMark", "lazy": False}] + R["pack"]["initial"]
     R["ops"] = [["auto", {"perc": 1, "smallest": rng.random() < 0.3, "status_update": None, "budgets": [], "tail_budget": None}]]
     R["clock"] = {"policy": "frozen", "seed": 0, "stall": 64, "skew_p": 0.0}
     R["config"]["debug"] = False
